@@ -193,6 +193,13 @@ class Ctx:
         return self.ex.unit_ghosts[name]
 
 
+def _walk_ast(n):
+    if isinstance(n, dict):
+        yield n
+        for c in n.get('inner', []) or []:
+            yield from _walk_ast(c)
+
+
 class Exec:
     def __init__(self, tu, fn, unit, loader=None):
         self.tu, self.fn, self.unit, self.loader = tu, fn, unit, loader
@@ -1309,12 +1316,38 @@ class Exec:
         rd = self.tu.byid.get(mid, {'name': name, 'id': mid})
         return self.do_call(n, st, q or name, rd, objn, n['inner'][1:], method=name)
 
+    def ev_LambdaExpr(self, n, st):
+        """a local lambda: its call operator is executed in place when the closure is called (see ev_CXXOperatorCallExpr).
+        Captures by reference and `this` need nothing (the body refers to the captured variables' own declarations); a capture
+        by copy is accepted only for variables that cannot change afterwards (const-qualified)"""
+        ops = [m_ for m_ in _walk_ast(n) if m_.get('kind') == 'CXXMethodDecl' and m_.get('name') == 'operator()' and any(c.get('kind') == 'CompoundStmt' for c in m_.get('inner', []))]
+        if len(ops) != 1:
+            raise ExtractionError(f'{self.unit}: lambda without a single call operator (line {self.curline})')
+        for rec in n.get('inner', []):
+            if rec.get('kind') == 'CXXRecordDecl':
+                for f_ in rec.get('inner', []):
+                    if f_.get('kind') == 'FieldDecl':
+                        qt = f_.get('type', {}).get('qualType', '')
+                        if not (qt.rstrip().endswith('&') or qt.rstrip().endswith('*') or qt.startswith('const ') or ' const' in qt):
+                            raise ExtractionError(f'{self.unit}: lambda captures a non-const variable by copy ({qt}) (line {self.curline})')
+        v = Opaque('lambda')
+        v.fdecl = ops[0]
+        return v
+
     def ev_CXXOperatorCallExpr(self, n, st):
         c = self.callee_info(n)
         rd = c.get('referencedDecl', {})
         name = rd.get('name')
         q = self.tu.qual.get(rd.get('id'))
         args = n['inner'][1:]
+        if name == 'operator()' and args:
+            tgt = args[0]
+            while tgt.get('kind') in ('ImplicitCastExpr', 'ParenExpr'):
+                tgt = tgt['inner'][0]
+            if tgt.get('kind') == 'DeclRefExpr':
+                cur = st.env.get((tgt.get('referencedDecl') or {}).get('id'))
+                if isinstance(cur, Opaque) and cur.what == 'lambda' and getattr(cur, 'fdecl', None) is not None:
+                    return self.inline(cur.fdecl, n, st, None, args[1:], 'lambda ' + str((tgt.get('referencedDecl') or {}).get('name')), keep_env=True)
         return self.do_call(n, st, q or name, rd, args[0], args[1:], method=name)
 
     def lv_CXXOperatorCallExpr(self, n, st):
@@ -1463,11 +1496,12 @@ class Exec:
                         return pick[0], tu
         return None, None
 
-    def inline(self, fdecl, n, st, objn, argn, q):
-        """execute the callee's own AST with parameters bound (accessors defined in /repo/inc)"""
+    def inline(self, fdecl, n, st, objn, argn, q, keep_env=False):
+        """execute the callee's own AST with parameters bound (accessors defined in /repo/inc); keep_env: a local lambda, whose
+        body sees the variables of the enclosing function"""
         ps = params(fdecl)
         saved_this, saved_env = self.thisname, st.env
-        newenv = {}
+        newenv = dict(saved_env) if keep_env else {}
         vals = []
         for p, a in zip(ps, argn):
             pt = parse_type(p['type'])
@@ -1513,6 +1547,11 @@ class Exec:
             raise ExtractionError(f'inline {q}: no return path')
         # adopt resulting state
         st.scal, st.arr, st.length, st.pc, st.dims = res.scal, res.arr, res.length, res.pc, res.dims
+        if keep_env:
+            # assignments to captured variables of the enclosing function persist
+            for k_, v_ in res.env.items():
+                if k_ in saved_env:
+                    saved_env[k_] = v_
         st.env = saved_env
         return rv
 
